@@ -1037,6 +1037,10 @@ package stack
 //@ func (*Snapshot).findRoots
 //@   requires s != nil && forall g :: 0 <= g && g < len(s.Goroutines) ==> s.Goroutines[g] != nil
 //@   modifies Snapshot.RemoteGOROOT, Snapshot.RemoteGOPATHs, Snapshot.LocalGomods at s
+//@   assert after-store Snapshot.RemoteGOROOT#1: [goRootIsTheCandidateWithoutSrc C18] len(r) >= 4 && s.RemoteGOROOT == r[:len(r)-4] && r[len(r)-4:] == "/src"
+//@   assert after-mapupdate#1: [gopathSrcRootRecorded C18] len(r) >= 4 && r[len(r)-4:] == "/src" && dom(s.RemoteGOPATHs, r[:len(r)-4]) && s.RemoteGOPATHs[r[:len(r)-4]] == l
+//@   assert after-mapupdate#2: [gopathModRootRecorded C18] len(r) >= 8 && r[len(r)-8:] == "/pkg/mod" && dom(s.RemoteGOPATHs, r[:len(r)-8]) && s.RemoteGOPATHs[r[:len(r)-8]] == l
+//@   assert after-mapupdate#3: [moduleRootRecorded C18] root != "" && dom(s.LocalGomods, root) && s.LocalGomods[root] == path
 //@   ensures [rootMapsAllocated C18] s.RemoteGOPATHs != nil && s.LocalGomods != nil && fresh(s.RemoteGOPATHs) && fresh(s.LocalGomods)
 //@   loop 0: invariant -1 <= rangeindex && s.RemoteGOPATHs != nil && s.LocalGomods != nil && fresh(s.RemoteGOPATHs) && fresh(s.LocalGomods) && gmc != nil && fresh(gmc)
 //@   loop 1: invariant -1 <= rangeindex#2 && s.RemoteGOPATHs != nil && s.LocalGomods != nil && fresh(s.RemoteGOPATHs) && fresh(s.LocalGomods) && gmc != nil && fresh(gmc)
